@@ -16,7 +16,13 @@ P = {'id': 'C18',
               'reduce_error_surfaces',
               'stream_prefix',
               'stream_complete',
-              'collector_order'],
+              'collector_order',
+              'parallel_map_is_map',
+              'parallel_for_each_visits_once',
+              'fiber_pool_bounded',
+              'reduce_chunks_partition',
+              'parallel_reduce_is_fold',
+              'parallel_reduce_error_surfaces'],
  'trusted': ['modelled (M+S): src/concurrency/work_stealing.rs WorkStealingQueue::{push_local, pop_local, steal, balance, len} and '
              'WorkStealingExecutor::{submit, find_task, one worker_loop iteration incl. the periodic balance, total_queued, is_idle} with every queue '
              'operation one atomic step; the index-tagged result collection of FiberPool::{parallel_map, spawn_batch, parallel_reduce}, '
